@@ -1764,3 +1764,138 @@ def c15_r18(ctx):
         ctx.check(ok, key(own, "base initialised"), f"{ci.qualname}.__init__ must hand its schema and config_dict to Plugin.__init__ (once, unconditionally, before reading them; reads: {reads}): {why}", own.loc(),
                   okmsg=f"{ci.qualname}: base initialised with its own (schema, config_dict){' before it reads ' + ', '.join(reads) if reads else ''}")
     ctx.check(n >= 3, "contrib::plugins with a constructor", f"bundled plugins defining __init__: {n}", "ariadne_codegen/contrib", okmsg=f"{n} bundled plugins define __init__")
+
+
+_LIB_MODULES = ("TYPING_MODULE", "PYDANTIC_MODULE", "'typing'", "'pydantic'")
+_NAME_EMITTERS = ("generate_name", "generate_annotation_name", "ast.Name")
+_GENERATORS = ("client_generators.client:ClientGenerator", "client_generators.custom_fields:CustomFieldsGenerator", "client_generators.custom_operation:CustomOperationGenerator",
+               "client_generators.input_types:InputTypesGenerator", "client_generators.result_types:ResultTypesGenerator")
+
+
+def _lib_imports(ci) -> Set[str]:
+    got: Set[str] = set()
+    for fi in ci.methods.values():
+        for c in ast.walk(fi.node):
+            if isinstance(c, ast.Call) and dotted(c.func) == "generate_import_from":
+                names, frm = argv(c, 0, "names"), argv(c, 1, "from_")
+                if isinstance(names, (ast.List, ast.Tuple)) and frm is not None and norm(frm) in _LIB_MODULES:
+                    got |= {str(norm(x)) for x in names.elts}
+    return got
+
+
+@rule("C04.R20", "a typing / pydantic name that a generator's code can emit (through any helper it reaches) is in the fixed import list of the module it writes", min_instances=25,
+      also=["C01", "C03", "C05", "C06", "C07", "C12", "C13", "C14"])
+def c04_r20(ctx):
+    from ..callgraph import CallGraph
+    repo = ctx.repo
+    cg = CallGraph(repo)
+    # the library names generated modules import on the pinned tree (a name dropped from every import list must not leave the universe)
+    universe: Set[str] = {"'AsyncIterator'", "'Dict'", "'Field'", "'PlainSerializer'", "'List'", "'BeforeValidator'", "'Literal'", "'BaseModel'", "'Any'", "'Union'", "'Annotated'", "'Optional'"}
+    per: Dict[str, Set[str]] = {}
+    for gk in _GENERATORS:
+        per[gk] = _lib_imports(repo.cls(gk))
+        universe |= per[gk]
+    ctx.check(len(universe) >= 10, "generators::library names", f"typing / pydantic names imported by some generated module: {sorted(universe)}", "ariadne_codegen/client_generators",
+              okmsg=f"{len(universe)} typing / pydantic names are imported by generated modules")
+    for gk in _GENERATORS:
+        ci = repo.cls(gk)
+        reach = cg.reach(ci.methods.values())
+        emitted: Dict[str, str] = {}
+        for fi in reach.values():
+            for c in ast.walk(fi.node):
+                if isinstance(c, ast.Call) and dotted(c.func) in _NAME_EMITTERS:
+                    a = argv(c, 0, "id" if dotted(c.func) == "ast.Name" else "name")
+                    t = str(norm(strip_pre(a))) if a is not None else ""
+                    if t in universe:
+                        emitted.setdefault(t, f"{fi.qualname} ({fi.loc(c)})")
+        for t, where in sorted(emitted.items()):
+            ctx.check(t in per[gk], f"{gk.split(':')[1]}::emits {t}", f"{ci.qualname} can emit the name {t} (in {where}) but the module it writes does not import it: NameError when the generated module is imported",
+                      ci.loc(), okmsg=f"{ci.qualname}: {t} emitted by {where.split(' (')[0]} and imported")
+
+
+@rule("C09.R6", "the names a module exports are the names of exactly the classes it writes (after pruning), and forward references are rebuilt for the same classes", min_instances=4, also=["C04", "C17"])
+def c09_r6(ctx):
+    repo = ctx.repo
+    for gk, has_rebuild in (("client_generators.input_types:InputTypesGenerator.generate", True), ("client_generators.enums:EnumsGenerator.generate", False)):
+        g = repo.func(gk)
+        outs = [o for o in Interp(g, lambda e: None).run() if o.kind == "return"]
+        stores = [st.value for st in ast.walk(g.node) if (isinstance(st, ast.Assign) and any(norm(t) == "self._generated_public_names" for t in st.targets)) or
+                  (isinstance(st, ast.AnnAssign) and st.value is not None and norm(st.target) == "self._generated_public_names")]
+        good = bool(outs) and len(stores) == 1
+        shown = ""
+        for o in outs:
+            if not good:
+                break
+            cs = comp_struct(strip_pre(subst(stores[0], o.env, deep=True)))
+            body = o.value
+            for _ in range(6):  # the module may have gone through the plugin hook: generate_module(...) is what was written
+                body = strip_pre(subst(body, o.env, deep=True)) if body is not None else None
+                if isinstance(body, ast.Call) and dotted(body.func).endswith("generate_inputs_module") or isinstance(body, ast.Call) and dotted(body.func).endswith("generate_enums_module"):
+                    body = allargs(body)[0] if allargs(body) else None
+                else:
+                    break
+            bt = str(norm(body)) if body is not None else ""
+            shown = f"exported {cs}, module {bt[:140]}"
+            ok = cs is not None and str(cs[0]) == "$0.name" and len(cs[1]) == 1 and not cs[1][0][1]
+            if ok:
+                src = str(cs[1][0][0])
+                ok = src.startswith("self._filter_class_defs(") and bt.startswith("generate_module(body=") and f"+ {src}" in bt
+                if ok and has_rebuild:
+                    # model_rebuild() calls are emitted for the same classes
+                    ok = f"for _c0x0 in {src} if model_has_forward_refs(" in bt or f"in {src} if model_has_forward_refs" in bt
+            good = good and ok
+        ctx.check(good, key(g, "exported = written"), f"self._generated_public_names must be [c.name for c in <the filtered classes written to the module>]: {shown}", g.loc(),
+                  okmsg=f"{g.qualname}: exported names are those of the filtered classes written to the module")
+    for gk in ("client_generators.input_types:InputTypesGenerator.get_generated_public_names", "client_generators.enums:EnumsGenerator.get_generated_public_names"):
+        fi = repo.func(gk)
+        rets = [norm(r.value) for r in ast.walk(fi.node) if isinstance(r, ast.Return) and r.value is not None]
+        ctx.check(rets in (["self._generated_public_names"], ["list(self._generated_public_names)"]), key(fi, "returns the recorded names"), f"returns {rets}", fi.loc(), okmsg=f"{fi.qualname} returns the recorded names")
+
+
+@rule("C16.R9", "the schema target format is decided from the last suffix of the file name - the part the validator checked - lower-cased, without the dot", min_instances=3, also=["C17"])
+def c16_r9(ctx):
+    repo = ctx.repo
+
+    def suffix_use(fi, subject):
+        outs = [o for o in Interp(fi, lambda e: None).run()]
+        texts = []
+        for st in ast.walk(fi.node):
+            for a in ast.walk(st) if isinstance(st, (ast.Return, ast.Assign, ast.AnnAssign)) else []:
+                if isinstance(a, ast.Attribute) and isinstance(a.value, ast.Call) and dotted(a.value.func) in ("Path", "PurePath", "pathlib.Path") and a.value.args and norm(a.value.args[0]) == subject:
+                    texts.append(a.attr)
+        return texts, outs
+    tf = repo.func("settings:GraphQLSchemaSettings.target_file_format")
+    attrs, _ = suffix_use(tf, "self.target_file_path")
+    rets = [str(norm(r.value)) for r in ast.walk(tf.node) if isinstance(r, ast.Return) and r.value is not None]
+    strip_ok = lambda t: (".lower()" in t) and ("[1:]" in t or "lstrip('.')" in t or "removeprefix('.')" in t)
+    ctx.check(attrs == ["suffix"] and len(rets) == 1 and strip_ok(rets[0]), key(tf, "last suffix"), f"target_file_format must be Path(self.target_file_path).suffix, lower-cased, dot removed: {rets}", tf.loc(),
+              okmsg="target_file_format = last suffix of target_file_path, lower-cased, without the dot")
+    va = repo.func("settings:assert_string_is_valid_schema_target_filename")
+    p0 = real_params(va)[0]
+    attrs2, _ = suffix_use(va, p0)
+    ctx.check(attrs2 and set(attrs2) == {"suffix"}, key(va, "last suffix"), f"the validator must look at Path({p0}).suffix: {attrs2}", va.loc(), okmsg="the file-name validator checks the last suffix")
+    users = []
+    for fi in repo.all_functions():
+        for c in ast.walk(fi.node):
+            if isinstance(c, ast.Compare) and "target_file_format" in norm(c.left) and len(c.ops) == 1:
+                users.append((fi, c))
+    ok = bool(users) and all(isinstance(c.ops[0], (ast.Eq, ast.NotEq)) and norm(c.comparators[0]) == "'py'" for _, c in users)
+    ctx.check(ok and len(users) >= 2, "settings::target_file_format compared", f"the format is compared with 'py' in {[(f.qualname, norm(c)) for f, c in users]}", tf.loc(),
+              okmsg=f"{len(users)} places compare the format with 'py'")
+
+
+@rule("C12.R5", "each operation gets the method flavour of the configured client: add_method receives the package generator's async flag, which is the constructor's parameter", min_instances=3,
+      also=["C11", "C13", "C02", "C04"])
+def c12_r5(ctx):
+    repo = ctx.repo
+    ao = repo.func(PGEN + "add_operation")
+    calls = [c for c in ast.walk(ao.node) if isinstance(c, ast.Call) and norm(c.func) == "self.client_generator.add_method"]
+    ctx.check(len(calls) == 1, key(ao, "one method per operation"), f"add_operation calls add_method {len(calls)} times", ao.loc(), okmsg="add_operation adds exactly one client method")
+    if calls:
+        a = kw(calls[0], "async_")
+        ctx.check(a is not None and norm(a) == "self.async_client", key(ao, "flavour"), f"add_method(async_=...) must be the generator's own flag self.async_client, got {norm(a) if a is not None else None}", ao.loc(calls[0]),
+                  okmsg="add_method(async_=self.async_client)")
+    init = repo.func(PGEN + "__init__")
+    vals = [norm(st.value) for st in ast.walk(init.node) if (isinstance(st, ast.Assign) and any(norm(t) == "self.async_client" for t in st.targets)) or
+            (isinstance(st, ast.AnnAssign) and st.value is not None and norm(st.target) == "self.async_client")]
+    ctx.check(vals == ["async_client"], key(init, "flag stored"), f"self.async_client is assigned {vals}; it must be the constructor's parameter", init.loc(), okmsg="self.async_client = async_client")
